@@ -139,6 +139,114 @@ func vfE1Popped(x *vfE1Ent, after []vfE1Ent, panicked bool, isNil bool) string {
 	return fmt.Sprintf("%d:%d:%d | %s", x.id, x.pri, x.index, vfE1Dump(after))
 }
 
+func vfE1ParseDump(d string) []vfE1Ent {
+	if d == "-" {
+		return nil
+	}
+	var es []vfE1Ent
+	for _, p := range strings.Split(d, ",") {
+		var e vfE1Ent
+		fmt.Sscanf(strings.ReplaceAll(p, ":", " "), "%d %d %d", &e.id, &e.pri, &e.index)
+		es = append(es, e)
+	}
+	return es
+}
+
+// vfE1PQExec runs one heap operation line (`pq1|pq2 push|pop|remove|peek <array> …`) on the real
+// heap built from the array in the line and returns the canonical answer.
+func vfE1PQExec(t *testing.T, line string, hist map[string]int) string {
+	w := strings.Fields(line)
+	if len(w) < 3 {
+		return "bad-op"
+	}
+	es := vfE1ParseDump(w[2])
+	num := func(i int) int64 {
+		var v int64
+		fmt.Sscanf(w[i], "%d", &v)
+		return v
+	}
+	guard := func(f func()) (panicked bool) {
+		defer func() {
+			if recover() != nil {
+				panicked = true
+			}
+		}()
+		f()
+		return
+	}
+	switch w[0] + " " + w[1] {
+	case "pq1 push":
+		pq := vfE1ToIF(es)
+		pq.Push(&Message{ID: vfE1MsgID(int(num(3))), pri: num(4)})
+		hist["push"]++
+		return vfE1Dump(vfE1FromIF(pq))
+	case "pq2 push":
+		pq := vfE1ToPQ(es)
+		heap.Push(&pq, &pqueue.Item{Value: int(num(3)), Priority: num(4)})
+		hist["push"]++
+		return vfE1Dump(vfE1FromPQ(pq))
+	case "pq1 pop", "pq1 remove":
+		pq := vfE1ToIF(es)
+		var x *Message
+		p := guard(func() {
+			if w[1] == "pop" {
+				x = pq.Pop()
+			} else {
+				x = pq.Remove(int(num(3)))
+			}
+		})
+		hist[w[1]+"1"]++
+		var xe *vfE1Ent
+		if x != nil {
+			xe = &vfE1Ent{vfE1IDNum(x.ID), x.pri, x.index}
+		}
+		return vfE1Popped(xe, vfE1FromIF(pq), p, false)
+	case "pq2 remove":
+		pq := vfE1ToPQ(es)
+		var x *pqueue.Item
+		p := guard(func() { x = heap.Remove(&pq, int(num(3))).(*pqueue.Item) })
+		hist["remove2"]++
+		var xe *vfE1Ent
+		if x != nil {
+			xe = &vfE1Ent{x.Value.(int), x.Priority, x.Index}
+		}
+		return vfE1Popped(xe, vfE1FromPQ(pq), p, false)
+	case "pq1 peek":
+		pq := vfE1ToIF(es)
+		tmax := num(3)
+		x, _ := pq.PeekAndShift(tmax)
+		var xe *vfE1Ent
+		if x != nil {
+			xe = &vfE1Ent{vfE1IDNum(x.ID), x.pri, x.index}
+			if x.pri > tmax {
+				fmt.Printf("ORACLE-FAIL early: inFlightPqueue.PeekAndShift(%d) released pri %d from %s\n", tmax, x.pri, w[2])
+				t.Fail()
+			}
+			hist["peek1-some"]++
+		} else {
+			hist["peek1-nil"]++
+		}
+		return vfE1Popped(xe, vfE1FromIF(pq), false, x == nil)
+	case "pq2 peek":
+		pq := vfE1ToPQ(es)
+		tmax := num(3)
+		x, _ := pq.PeekAndShift(tmax)
+		var xe *vfE1Ent
+		if x != nil {
+			xe = &vfE1Ent{x.Value.(int), x.Priority, x.Index}
+			if x.Priority > tmax {
+				fmt.Printf("ORACLE-FAIL early: PriorityQueue.PeekAndShift(%d) released pri %d from %s\n", tmax, x.Priority, w[2])
+				t.Fail()
+			}
+			hist["peek2-some"]++
+		} else {
+			hist["peek2-nil"]++
+		}
+		return vfE1Popped(xe, vfE1FromPQ(pq), false, x == nil)
+	}
+	return "bad-op"
+}
+
 func TestVerifPQCorr(t *testing.T) {
 	out := vfOpen("pq")
 	defer out.Close()
@@ -146,6 +254,21 @@ func TestVerifPQCorr(t *testing.T) {
 	n := vfEnvInt("VERIF_N", 20000)
 	nextID := 0
 	hist := map[string]int{}
+	for _, f := range strings.Split(os.Getenv("VERIF_CORPUS"), ":") {
+		if f == "" {
+			continue
+		}
+		raw, err := os.ReadFile(f)
+		if err != nil {
+			t.Fatalf("corpus %s: %v", f, err)
+		}
+		for _, line := range strings.Split(string(raw), "\n") {
+			line = strings.TrimSpace(line)
+			if strings.HasPrefix(line, "pq1 ") || strings.HasPrefix(line, "pq2 ") {
+				out.Case(line, vfE1PQExec(t, line, hist))
+			}
+		}
+	}
 	for i := 0; i < n; i++ {
 		es := vfE1GenArray(r, &nextID)
 		dump := vfE1Dump(es)
@@ -159,115 +282,29 @@ func TestVerifPQCorr(t *testing.T) {
 		} else {
 			tmax = int64(r.Intn(10))
 		}
-		op := r.Intn(9)
-		switch op {
+		var line string
+		switch op := r.Intn(9); op {
 		case 0, 1: // push (both variants)
 			nextID++
 			pri := int64(r.Intn(1000))
 			if r.Intn(5) == 0 && len(es) > 0 {
 				pri = es[r.Intn(len(es))].pri
 			}
-			if op == 0 {
-				pq := vfE1ToIF(es)
-				pq.Push(&Message{ID: vfE1MsgID(nextID), pri: pri})
-				out.Case(fmt.Sprintf("pq1 push %s %d %d", dump, nextID, pri), vfE1Dump(vfE1FromIF(pq)))
-			} else {
-				pq := vfE1ToPQ(es)
-				heap.Push(&pq, &pqueue.Item{Value: nextID, Priority: pri})
-				out.Case(fmt.Sprintf("pq2 push %s %d %d", dump, nextID, pri), vfE1Dump(vfE1FromPQ(pq)))
-			}
-			hist["push"]++
-		case 2: // pop1
-			pq := vfE1ToIF(es)
-			var x *Message
-			panicked := func() (p bool) {
-				defer func() {
-					if recover() != nil {
-						p = true
-					}
-				}()
-				x = pq.Pop()
-				return
-			}()
-			var xe *vfE1Ent
-			if x != nil {
-				xe = &vfE1Ent{vfE1IDNum(x.ID), x.pri, x.index}
-			}
-			out.Case("pq1 pop "+dump, vfE1Popped(xe, vfE1FromIF(pq), panicked, false))
-			hist["pop1"]++
+			line = fmt.Sprintf("pq%d push %s %d %d", op+1, dump, nextID, pri)
+		case 2:
+			line = "pq1 pop " + dump
 		case 3, 4: // remove i (sometimes out of range)
-			i := r.Intn(len(es) + 1)
+			k := r.Intn(len(es) + 1)
 			if r.Intn(6) != 0 && len(es) > 0 {
-				i = r.Intn(len(es))
+				k = r.Intn(len(es))
 			}
-			if op == 3 {
-				pq := vfE1ToIF(es)
-				var x *Message
-				panicked := func() (p bool) {
-					defer func() {
-						if recover() != nil {
-							p = true
-						}
-					}()
-					x = pq.Remove(i)
-					return
-				}()
-				var xe *vfE1Ent
-				if x != nil {
-					xe = &vfE1Ent{vfE1IDNum(x.ID), x.pri, x.index}
-				}
-				out.Case(fmt.Sprintf("pq1 remove %s %d", dump, i), vfE1Popped(xe, vfE1FromIF(pq), panicked, false))
-				hist["remove1"]++
-			} else {
-				pq := vfE1ToPQ(es)
-				var x *pqueue.Item
-				panicked := func() (p bool) {
-					defer func() {
-						if recover() != nil {
-							p = true
-						}
-					}()
-					x = heap.Remove(&pq, i).(*pqueue.Item)
-					return
-				}()
-				var xe *vfE1Ent
-				if x != nil {
-					xe = &vfE1Ent{x.Value.(int), x.Priority, x.Index}
-				}
-				out.Case(fmt.Sprintf("pq2 remove %s %d", dump, i), vfE1Popped(xe, vfE1FromPQ(pq), panicked, false))
-				hist["remove2"]++
-			}
-		case 5, 6: // PeekAndShift variant 1
-			pq := vfE1ToIF(es)
-			x, _ := pq.PeekAndShift(tmax)
-			var xe *vfE1Ent
-			if x != nil {
-				xe = &vfE1Ent{vfE1IDNum(x.ID), x.pri, x.index}
-				if x.pri > tmax {
-					fmt.Printf("ORACLE-FAIL early: inFlightPqueue.PeekAndShift(%d) released pri %d from %s\n", tmax, x.pri, dump)
-					t.Fail()
-				}
-				hist["peek1-some"]++
-			} else {
-				hist["peek1-nil"]++
-			}
-			out.Case(fmt.Sprintf("pq1 peek %s %d", dump, tmax), vfE1Popped(xe, vfE1FromIF(pq), false, x == nil))
-		default: // PeekAndShift variant 2
-			pq := vfE1ToPQ(es)
-			x, _ := pq.PeekAndShift(tmax)
-			var xe *vfE1Ent
-			if x != nil {
-				xe = &vfE1Ent{x.Value.(int), x.Priority, x.Index}
-				if x.Priority > tmax {
-					fmt.Printf("ORACLE-FAIL early: PriorityQueue.PeekAndShift(%d) released pri %d from %s\n", tmax, x.Priority, dump)
-					t.Fail()
-				}
-				hist["peek2-some"]++
-			} else {
-				hist["peek2-nil"]++
-			}
-			out.Case(fmt.Sprintf("pq2 peek %s %d", dump, tmax), vfE1Popped(xe, vfE1FromPQ(pq), false, x == nil))
+			line = fmt.Sprintf("pq%d remove %s %d", op-2, dump, k)
+		case 5, 6:
+			line = fmt.Sprintf("pq1 peek %s %d", dump, tmax)
+		default:
+			line = fmt.Sprintf("pq2 peek %s %d", dump, tmax)
 		}
+		out.Case(line, vfE1PQExec(t, line, hist))
 	}
 	fmt.Printf("PQ-HIST %v\n", hist)
 }
